@@ -53,7 +53,7 @@ CHECKS["C05"] = dict(level="model_checking", design="4/C05", engine="bmc", techn
    note="Trusted: z3, VM, primitive contracts (multiprocessing.Queue as atomic bounded FIFO). Bounds: quick FunctorMap n<=2, workers<=2, chunk<=2, one 2-call configuration, mul_p_map workers<=2, n<=2, class-level work-queue bound 1/2; thorough n<=3, mul_p_map workers<=3.")
 CHECKS["C03"] = dict(level="model_checking", design="4/C03, 6", engine="bmc", technique=BMC,
    text="Plain FunctorPool: induction over calls decided by z3 with a symbolic schedule - from every state satisfying the inter-call invariant (symbolic stale _data_cnt, symbolic number of stale payload-free tokens in the results queue, _sending_work False, work queue empty, idle workers) ONE imap / imap_unordered call yields exactly its own results, cannot deadlock, is bounded, and re-establishes the invariant; hence call sequences of any length. FactoryFunctorPool with a chunk quota (thorough tier): worker retirement and replacement by ReplaceWorkerThread are encoded (5 threads); counterexamples (e.g. the stale stop token repaired in 4ecc193) are found and replayed on the real classes; the refutation is decided for ALL SCHEDULES WITH AT MOST 3 PRE-EMPTIONS (context bound, n<=1, quota 1, one replacement); without the context bound it does not finish and that copy of the configuration reports INCONCLUSIVE.",
-   note="Trusted: as C01 plus the stated inter-call invariant (a worker that still holds the results lock after its last put is not represented; pending retirements in the replace queue are not part of the havoc state). Bounds: 1 worker, n<=1, <=1 stale token (quick); thorough adds 2 workers, results bound 1, n<=2 with <=2 pre-emptions, and the factory configurations (1 worker with quota 1 + 1 spare: n<=1 with <=3 pre-emptions, n<=2 with a quota-free spare and <=2 pre-emptions).")
+   note="Trusted: as C01 plus the stated inter-call invariant (a worker that still holds the results lock after its last put is not represented; pending retirements in the replace queue are not part of the havoc state). Bounds: 1 worker, n<=1, <=1 stale token (quick); thorough adds 2 workers, results bound 1 (both may end INCONCLUSIVE on a loaded machine: 1200 s per query), and the factory configurations (1 worker with quota 1 + 1 spare: n<=1 with <=3 pre-emptions, n<=2 with a quota-free spare and <=2 pre-emptions).")
 CHECKS["C04"] = dict(level="model_checking", design="4/C04, 6", engine="bmc", technique=BMC,
    text="Plain FunctorPool with harness workers carrying ghost monitors and solver-chosen faults (begin() raises / functor raises): decided by z3 over all interleavings, n<=N and fault choices that begin() runs once before any item, no item after end(), until_all_ready() returns only after every begin() completed, a worker with quota k processes at most k chunks, every terminated worker has begin_calls == end_calls == 1 (final-state invariant, also evaluated on the real run in replays), and no worker is running after the pool context. FactoryFunctorPool (thorough): the same monitors on the initial and the REPLACED worker, decided for all schedules with at most 2 pre-emptions.",
    note="Trusted: as C01; monitors are ghost state (not schedulable steps). Bounds: 1 worker, n<=1, quota none/1 (quick); 2 workers, n<=2 with a context bound, bounded results queue (thorough).")
